@@ -106,8 +106,8 @@ func checkStores(c *Ctx, specs []storeSpec) {
 func (c *Ctx) callersOf(id string) []string {
 	var out []string
 	for f := range c.P.AllFuncs() {
-		if !load.InModule(f) || c.isTestFunc(f) || strings.Contains(load.FuncName(f), "mocks/") {
-			continue
+		if !load.InModule(f) || c.isTestFunc(f) || strings.Contains(load.FuncName(f), "mocks/") || f.Synthetic != "" {
+			continue // synthetic wrappers (promoted methods, bound method closures) only forward
 		}
 		for range callsIn(f, id) {
 			out = append(out, load.FuncName(f))
